@@ -1,22 +1,152 @@
-"""./check selftest env|determinism|sensitivity|alphabet  (development-time and CI self-tests; not a property check)"""
+"""./check selftest env|alphabet|determinism|sensitivity   (self-tests of the simulator; not a property check)"""
+import concurrent.futures as cf
+import glob
+import json
+import multiprocessing
+import os
+import re
+import shutil
+import subprocess
 import sys
+import tempfile
+import time
+
+VERIF = os.path.dirname(os.path.dirname(os.path.abspath(__file__)))
 
 
 def main(a):
     sub = a.sub or "env"
     if sub == "env":
         return env()
+    if sub == "alphabet":
+        return alphabet()
+    if sub == "determinism":
+        return determinism(a.n or (16 if a.tier == "quick" else 256), a.seed)
+    if sub == "sensitivity":
+        return sensitivity(a.scale, a.seed, os.environ.get("HTSIM_ONLY"))
     print("unknown selftest", sub)
     return 2
 
 
 def env():
     """setup_cmd: everything the checks need is on disk, offline."""
-    import os
     from . import pristine
     pristine.setup()
     import numpy
     import qiskit
     print(f"python {sys.version.split()[0]} numpy {numpy.__version__} qiskit {qiskit.__version__} src {pristine.src_dir()} "
-          f"fork={'fork' in __import__('multiprocessing').get_all_start_methods()} cpus={os.cpu_count()}")
+          f"fork={'fork' in multiprocessing.get_all_start_methods()} cpus={os.cpu_count()}")
+    return 0
+
+
+def alphabet():
+    from . import pristine, worker
+    pristine.setup()
+    rep = worker.run_job({"mode": "audit"})
+    print(json.dumps(rep.get("audit"), indent=1))
+    return 0 if rep.get("audit") and not rep["audit"]["not_in_alphabet"] else 1
+
+
+# --------------------------------------------------------------------------- determinism
+
+def _digest_task(jobs):
+    from . import worker
+    out = []
+    for j in jobs:
+        r = worker.run_job(j)
+        out.append((j["batch"], j["i"], r.get("history_digest"), r.get("log_digest"), r.get("harness_error")))
+    return out
+
+
+def determinism(n, seed):
+    """N run seeds x {twice in one worker, once in another worker, once with a single-worker pool, once in a
+    fresh interpreter under another PYTHONHASHSEED, once under yet another}: event-log digests must agree."""
+    from . import driver, fresh, pristine
+    scratch = driver.Scratch()
+    os.environ["HTSIM_PYC"] = scratch.dir
+    pristine.setup()
+    t0 = time.time()
+    jobs = []
+    for b in driver.BATCHES:
+        for i in range(max(1, n // len(driver.BATCHES))):
+            jobs.append({"mode": "generate", "batch": b, "i": i, "tier": "quick", "want_events": False,
+                         "seed": driver.run_seed(seed, "det", b, i)})
+    ctx = multiprocessing.get_context("fork")
+    results = {}
+    with cf.ProcessPoolExecutor(max_workers=16, mp_context=ctx) as pool:
+        fa = [pool.submit(_digest_task, [j, j]) for j in jobs]                 # twice in the same worker
+        fb = [pool.submit(_digest_task, [j]) for j in reversed(jobs)]          # other worker, other order
+        for tag, fs in (("same-worker-twice", fa), ("other-worker", fb)):
+            for f in fs:
+                for b, i, h, l, err in f.result():
+                    results.setdefault((b, i), []).append((tag, h, l, err))
+    with cf.ProcessPoolExecutor(max_workers=1, mp_context=ctx) as pool:       # W = 1
+        for b, i, h, l, err in pool.submit(_digest_task, jobs[: max(4, len(jobs) // 4)]).result():
+            results.setdefault((b, i), []).append(("single-worker", h, l, err))
+    procs = []
+    for k, hs in enumerate((424242, 7, 990001, 31)):
+        part = jobs[k::4]
+        if part:
+            procs.append((hs, fresh.launch({"mode": "generate", "jobs": part}, hs, VERIF, "/" if k % 2 else scratch.dir, "C")))
+    for hs, p in procs:
+        for r in fresh.collect(p)["out"]:
+            results.setdefault((r["job"]["batch"], r["job"]["i"]), []).append(
+                (f"fresh-interpreter-hashseed-{hs}", r.get("history_digest"), r.get("log_digest"), r.get("harness_error")))
+    bad = 0
+    execs = 0
+    for k, lst in sorted(results.items()):
+        execs += len(lst)
+        sigs = {(h, l) for _, h, l, _ in lst}
+        errs = [e for *_, e in lst if e]
+        if len(sigs) != 1 or errs:
+            bad += 1
+            print("NONDETERMINISTIC", k, lst[:6])
+    print(f"determinism self-test: {len(results)} run seeds, {execs} executions, {bad} diverging, {time.time() - t0:.0f}s")
+    return 0 if bad == 0 else 2
+
+
+# --------------------------------------------------------------------------- sensitivity
+
+def sensitivity(scale, seed, only=None):
+    """Applies every seeded change under /verif/seeded/*/patch.diff to a scratch copy of the tree under
+    test and runs the quick check against it. Writes seeded/RESULTS.json."""
+    out = {}
+    dirs = sorted(glob.glob(os.path.join(VERIF, "seeded", "*", "patch.diff")))
+    for patch in dirs:
+        sid = os.path.basename(os.path.dirname(patch))
+        if only and not re.search(only, sid):
+            continue
+        d = tempfile.mkdtemp(prefix="htsim-mut.")
+        try:
+            shutil.copytree("/repo/src", os.path.join(d, "src"))
+            subprocess.run(["git", "init", "-q", "."], cwd=d, check=True)
+            r = subprocess.run(["git", "apply", "--whitespace=nowarn", patch], cwd=d, capture_output=True, text=True)
+            if r.returncode != 0:
+                out[sid] = {"error": "patch does not apply: " + r.stderr[-300:]}
+                print(sid, "PATCH DOES NOT APPLY")
+                continue
+            env = dict(os.environ)
+            env["HTSIM_SRC"] = os.path.join(d, "src")
+            env["HTSIM_EVIDENCE_DIR"] = d
+            env["HTSIM_REPLAY_DIR"] = os.path.join(d, "replays")
+            t0 = time.time()
+            r = subprocess.run([os.path.join(VERIF, "check"), "C13", "--tier", "quick", "--seed", str(seed),
+                                "--scale", str(scale)], capture_output=True, text=True, env=env)
+            viol = re.findall(r"^VIOLATION property=C13 replay=\S*?C13-\d+-(K\d|R)\d*-(I\d)-(\S+)\.json", r.stdout, re.M)
+            herr = re.findall(r"^HARNESS-ERROR.*", r.stdout, re.M)
+            out[sid] = {"exit": r.returncode, "detected": r.returncode == 1,
+                        "violation_classes": sorted({f"{inv}:{op}@{b}" for b, inv, op in viol}),
+                        "harness_errors": len(herr), "wall_s": round(time.time() - t0), "scale": scale, "seed": seed}
+            print(sid, "exit", r.returncode, out[sid]["violation_classes"], f"{out[sid]['wall_s']}s",
+                  ("HARNESS " + herr[0][:200]) if herr else "", flush=True)
+        finally:
+            shutil.rmtree(d, ignore_errors=True)
+    path = os.path.join(VERIF, "seeded", "RESULTS.json")
+    prev = {}
+    if os.path.exists(path):
+        with open(path) as f:
+            prev = json.load(f)
+    prev.update(out)
+    with open(path, "w") as f:
+        json.dump(prev, f, indent=1, sort_keys=True)
     return 0
